@@ -71,3 +71,13 @@ func (h *Heap) SetKnown(sv SliceV, idx int64, v Lin) {
 		h.setKnown(sv.Reg, base+idx, v)
 	}
 }
+
+// NewTypedCell creates a tracked cell of type t holding v (pointee of a root pointer argument).
+func (in *Interp) NewTypedCell(name string, t types.Type, v Value, h *Heap) PtrV {
+	c := in.newCell(name, t)
+	h.mem[c] = v
+	return PtrV{Cell: c, Nil: 2}
+}
+
+// UnknownOf returns the unknown value of type t.
+func (in *Interp) UnknownOf(t types.Type, why string) Value { return in.unknownOf(t, why, false) }
